@@ -29,6 +29,7 @@ type c09Mon struct {
 	withdrawn []*big.Int
 	nextL2    uint64
 	execs     []string
+	hookGas   uint64
 }
 
 func (m *c09Mon) viol(i int, sig, what string) {
@@ -46,6 +47,7 @@ func c09Check(rep *Report, c *L2Case, initObs Ov) {
 	m.nextL2 = m.init.N2
 	prev := m.init
 	m.execs = append([]string{}, c.Params.Execs...)
+	m.hookGas = c.Params.HookGas
 	for i, o := range c.Ops {
 		cur := l2ViewOf(tr, c.Obs[i])
 		evs := parseL2EvList(c.Results[i].Events)
@@ -145,6 +147,7 @@ func c09Check(rep *Report, c *L2Case, initObs Ov) {
 			}
 		}
 		if o.Kind == "params" && cur.OK {
+			m.hookGas = o.Params.HookGas
 			m.execs = append([]string{}, o.Params.Execs...)
 		}
 		prev = cur
@@ -251,6 +254,9 @@ func (m *c09Mon) checkDeposit(i int, o L2Op, prev, cur L2View, wevs, devs []L2Ev
 	if len(devs) != 1 || devs[0].Seq != o.Seq || devs[0].Denom != o.Denom || devs[0].Amt.Cmp(o.Amt) != 0 {
 		m.viol(i, "C09:deposit-event", "processed deposit without exactly one matching finalize_token_deposit event")
 		return
+	}
+	if devs[0].Success && o.Hook.Kind != "none" && m.hookGas == 0 {
+		m.viol(i, "C09:hook-dropped", "hook_max_gas is 0, yet a deposit carrying a hook payload was credited instead of refunded (the payload was silently dropped)")
 	}
 	if devs[0].Success {
 		// the only records of a credited deposit are those of withdrawal messages carried by its
@@ -477,6 +483,9 @@ func genC09(seed uint64, tier string, outdir string) *Report {
 			case 3: // executor list change (sometimes adds the module authority, enabling batched deposits)
 				ps, _ := e.K.GetParams(e.Ctx)
 				np := &L2Params{Admin: ps.Admin, MaxV: uint64(ps.MaxValidators), Hist: uint64(ps.HistoricalEntries), MinGas: c.Params.MinGas, Whitelist: []string{}, HookGas: ps.HookMaxGas}
+				if r.Chance(35) {
+					np.HookGas = []uint64{0, 1000000}[r.Intn(2)] // hooks switched off (hook_max_gas = 0) / on again
+				}
 				np.Execs = append(np.Execs, e.User(uint64(1+r.Intn(2))).Str)
 				if r.Chance(60) {
 					np.Execs = append(np.Execs, e.Auth)
@@ -527,6 +536,7 @@ func genC09(seed uint64, tier string, outdir string) *Report {
 		nv := len(rep.Violations)
 		c09Check(rep, c, initObs)
 		shrinkL2Violations(rep, nv, c, l2Replayer{Fresh: fresh, Monitor: c09Check})
+		l2QueryMonitor(rep, c, "C09")
 		rep.Ops += len(c.Ops)
 		rep.CountCase(strings.Join(opsCoq(c.Ops), "\n"), wOK && wErr && refunded)
 		if k == 0 {
@@ -579,6 +589,7 @@ func genC09(seed uint64, tier string, outdir string) *Report {
 		nv := len(rep.Violations)
 		c09Check(rep, c, initObs)
 		shrinkL2Violations(rep, nv, c, l2Replayer{Fresh: fresh, Monitor: c09Check})
+		l2QueryMonitor(rep, c, "C09")
 		rep.Ops += len(c.Ops)
 		rep.CountCase(strings.Join(opsCoq(c.Ops), "\n"), true)
 	}
